@@ -120,15 +120,11 @@ Definition entity_from_tlv := wrap_from_tlv TLV_ENTITY_ID.
 Definition flow_from_tlv := wrap_from_tlv TLV_FLOW_LABEL.
 Definition msg_from_tlv := wrap_from_tlv TLV_MESSAGE_TO_USER.
 
-(* UnsignedByteField.from_bytes(raw).value as used by EntityIdTlv.__eq__ *)
-(* verify_byte_len(len(raw)) -> ValueError unless 0/1/2/4/8; int.from_bytes(raw, "big") *)
-Definition ubf_value_from_bytes (raw : bytes) : res Z :=
-  if (len raw =? 0) || (len raw =? 1) || (len raw =? 2) || (len raw =? 4) || (len raw =? 8)
-  then Ok (be_decode raw) else Err EValue.
+(* EntityIdTlv.__eq__ (other an EntityIdTlv):
+   int.from_bytes(self.value, "big") == int.from_bytes(other.value, "big"); never raises
+   (result type kept as `res bool` for the callers) *)
 Definition entity_eqb (a b : tlv) : res bool :=
-  do x <- ubf_value_from_bytes (tlv_value a);
-  do y <- ubf_value_from_bytes (tlv_value b);
-  Ok (x =? y).
+  Ok (be_decode (tlv_value a) =? be_decode (tlv_value b)).
 
 (* ---- FaultHandlerOverrideTlv ---- *)
 Record fault_tlv := { fh_cc : Z; fh_hc : Z; fh_tlv : tlv }.
